@@ -5,6 +5,7 @@
    os.replace, load), kills a loader at any point, starts a new load, or clears one type / the store.
    PARTIAL: power-loss durability (fsync) and non-POSIX rename semantics are outside the model:
    os.replace is assumed atomic; mkstemp names are assumed unique and never equal to a cache location. *)
+From Hpotk Require Import Store.Paths.
 From Coq Require Import String List Bool Arith.
 From Hpotk Require Import Base.Result Base.Str Store.Model Store.Proofs.
 Import ListNotations.
@@ -79,3 +80,23 @@ Proof.
                with true => eq_refl | false => eq_refl end))
     eq_refl).
 Qed.
+
+(* the NAMES behind the structured paths of the model (relative to the store directory):
+   <ID>/<id>.<release>.json for a cache location, that name + "." + <random> + ".tmp" for a temporary file.
+   Classifying a name found under the store directory is a left inverse of both naming functions, hence cache
+   locations of different (type, release) pairs are different files, a temporary file is never a cache location
+   (whatever the release string looks like), temporary files with different random parts differ, and everything
+   classified with a type lies in that type's directory - the one clear(type) removes *)
+Theorem C07_names : forall (t : otype) (r rnd : string), t < 3 ->
+  classify (final_name t r) = CFinal t r /\ classify (temp_name t r rnd) = CTemp t (base_name t r ++ "." ++ rnd ++ ".tmp")%string.
+Proof. exact (fun t r rnd H => conj (classify_final t r H) (classify_temp t r rnd H)). Qed.
+
+Theorem C07_names_distinct : forall (t t' : otype) (r r' rnd rnd' : string), t < 3 -> t' < 3 ->
+  (final_name t r = final_name t' r' -> t = t' /\ r = r') /\
+  temp_name t r rnd <> final_name t' r' /\
+  (temp_name t r rnd = temp_name t r rnd' -> rnd = rnd').
+Proof. exact (fun t t' r r' rnd rnd' H H' => conj (final_name_injective t r t' r' H H') (conj (temp_is_not_final t r rnd t' r' H H') (temp_name_injective t r rnd rnd'))). Qed.
+
+Theorem C07_names_type_directory : forall (s : string) (t : otype), class_type (classify s) = Some t ->
+  exists b, s = (type_id t ++ "/" ++ b)%string /\ t < 3.
+Proof. exact classify_type. Qed.
